@@ -767,40 +767,64 @@ def build_unit(unit, outdir):
 LEMMA_TAG = re.compile(r'//\s*@lemma\s+([A-Za-z0-9_.\-]+)\s*\[([A-Z0-9, ]*)\]')
 
 
+def _fn_extent(lines, i):
+    """last line index of the proof/spec fn starting at line i: its body is the first `{` met outside parentheses
+    (so `ensures ({ .. })` blocks are not mistaken for the body); string/char literals in lemma files hold no braces."""
+    par = 0
+    depth = 0
+    started = False
+    j = i
+    while j < len(lines):
+        ln = lines[j]
+        if ln.lstrip().startswith('//'):
+            j += 1
+            continue
+        k = 0
+        while k < len(ln):
+            ch = ln[k]
+            if ch == '/' and ln[k:k + 2] == '//':
+                break
+            if not started:
+                if ch in '([':
+                    par += 1
+                elif ch in ')]':
+                    par -= 1
+                elif ch == '{' and par == 0:
+                    started = True
+                    depth = 1
+                elif ch == ';' and par == 0:
+                    return j  # declaration without body (uninterp spec fn)
+            else:
+                if ch == '{':
+                    depth += 1
+                elif ch == '}':
+                    depth -= 1
+                    if depth == 0:
+                        return j
+            k += 1
+        j += 1
+    return len(lines) - 1
+
+
 def collect_lemma_obligations(em, unit, fname, src, base):
     """`// @lemma name [C01,C02]` on the line before `proof fn name` registers a lemma obligation."""
     lines = src.split('\n')
     for i, ln in enumerate(lines):
         m = re.search(r'\b(proof|spec) fn\s+([A-Za-z0-9_]+)', ln)
-        if m:
-            j, depth, started = i, 0, False
-            while j < len(lines):
-                depth += lines[j].count('{') - lines[j].count('}')
-                started = started or '{' in lines[j]
-                if started and depth <= 0:
-                    break
-                j += 1
+        if m and not ln.lstrip().startswith('//'):
+            j = _fn_extent(lines, i)
             em.fn_ranges.append((base + i, base + j, m.group(2), 'lemmas/' + fname, i + 1, 'lemma-fn'))
     for i, ln in enumerate(lines):
         m = LEMMA_TAG.search(ln)
         if m:
-            # extent: until the matching close of the proof fn body
+            # extent: from the tag line to the close of the next proof fn's body
             j = i + 1
-            depth = 0
-            started = False
-            while j < len(lines):
-                if lines[j].lstrip().startswith('//'):
-                    j += 1
-                    continue
-                depth += lines[j].count('{') - lines[j].count('}')
-                if '{' in lines[j]:
-                    started = True
-                if started and depth <= 0:
-                    break
+            while j < len(lines) and not re.search(r'\bproof fn\s', lines[j]):
                 j += 1
+            j = _fn_extent(lines, j) if j < len(lines) else i
             tags = [x.strip() for x in m.group(2).split(',') if x.strip()]
             em.obls.append({'name': '%s::lemma::%s' % (unit, m.group(1)), 'unit': unit, 'fn': m.group(1), 'label': 'lemma',
-                            'tags': tags, 'kind': 'lemma', 'gen_start': base + i, 'gen_end': base + j})
+                            'tags': tags, 'kind': 'lemma', 'gen_start': base + i, 'gen_end': base + j, 'file': 'lemmas/' + fname})
             em.fn_ranges.append((base + i, base + j, m.group(1), 'lemmas/' + fname, i + 1, 'lemma'))
 
 
